@@ -25,7 +25,7 @@ PHASES = ['start', 'restore', 'init_async', 'init_regular', 'init_from_value', '
           'stop_async', 'stop_async_slow', 'maintask']
 CAUSES = ['shutdown', 'abort', 'ctrl_shutdown', 'ctrl_abort', 'sup_return', 'sup_fail', 'sigterm', 'none',
           'abort_before_start']
-RULE = ("Case = 1-4 probe blocks (synchronous, or with init_async / stop_async / a main task; start-up sources; "
+RULE = ("Case = 1-4 probe blocks (synchronous, or with init_async - honouring an interruption, cleaning up for 0.4 s first, or turning it into an ordinary failure - / stop_async / a main task; start-up sources; "
         "fault site in {start, restore, init_async, init_regular, init_from_value, event handler, main task, stop, "
         "stop_async raising, stop_async exceeding stop_timeout}) + library blocks from {Timer (running timer), "
         "Repeat (mid-repetition), ValuePoll, OutputAsync (run in progress, stop_data), OutputFunc (stop_data), "
@@ -72,7 +72,17 @@ class PB(edzed.AddonPersistence, edzed.AddonAsync, edzed.SBlock):
 
     async def init_async(self):
         self._f('init_async')
-        await asyncio.sleep(self.cfg['ia_delay'])
+        try:
+            await asyncio.sleep(self.cfg['ia_delay'])
+        except asyncio.CancelledError:
+            # reaction to an interruption: let it through, clean up first (closing a connection takes a
+            # moment), or report it as an ordinary failure
+            how = self.cfg.get('ia_cancel')
+            if how == 'slow':
+                await asyncio.sleep(0.4)
+            elif how == 'exc':
+                raise Fault('init_async interrupted') from None
+            raise
         if not self.is_initialized():
             self.set_output('async')
 
@@ -154,6 +164,8 @@ def cases(draw):
                    # persistent with a saved state / persistent in its first run (nothing saved yet)
                    'saved': draw(st.sampled_from([None, None, 'saved', 'absent'])),
                    'fault': draw(st.sampled_from([None] * 8 + PHASES[:9]))}
+            if has_ia:
+                cfg['ia_cancel'] = draw(st.sampled_from([None, None, 'slow', 'exc']))
             if cfg['fault'] in ('init_async',) and not has_ia:
                 cfg['ia_delay'] = 1
             if cfg['fault'] in ('stop_async', 'stop_async_slow') and not has_sa:
